@@ -2,6 +2,7 @@ import A2Verif.Lemmas.NibbleRT
 import A2Verif.Lemmas.FlatLaws
 import A2Verif.Lemmas.Nibble35
 import A2Verif.Lemmas.TrackOps
+import A2Verif.Props.C08Img
 /-!
 # Property C08 — sector and block storage is exact and non-interfering
 
